@@ -69,6 +69,15 @@ def gen_cases(ctx):
             if ctx.take(i):
                 yield {"op": op, "dest": "fresh", "followup": True, "part": part, "nparts": 2}
             i += 1
+    # the same through a handle opened by id that has not read its state point yet
+    for op in ("spset", "assign", "update_sp", "move"):
+        for part in range(2):
+            if ctx.take(i):
+                yield {"op": op, "dest": "fresh", "followup": True, "lazy": True, "part": part, "nparts": 2}
+            i += 1
+        if ctx.take(i):
+            yield {"op": op, "dest": "fresh", "lazy": True, "part": 0, "nparts": 1}
+        i += 1
     # systematic double faults for the short operations: every first error, then every later step of the
     # run that this first error produces
     for op in ("init_force", "init_fresh", "reset"):
@@ -113,6 +122,12 @@ def make(case):
                 payload(p1.open_job(JNEW if opname != "update_sp" else {"a": 1, "c": 3}).init(), "DEST")
         # an earlier session left a persistent state point cache: check() after the fault is asked both with it and
         # without it (judge)
+        if case.get("lazy"):
+            # no cache anywhere: the handle is opened by id and has to read its state point file on first use, which
+            # is then the first file-system step of the operation
+            P1 = signac.Project(os.path.join(root, "p1"))
+            P2 = signac.Project(os.path.join(root, "p2"))
+            return {"p1": P1, "p2": P2, "job": P1.open_job(id=model.model_id(J))}
         p1.update_cache()
         p2.update_cache()
         P1 = signac.Project(os.path.join(root, "p1"))
